@@ -8,7 +8,8 @@ import (
 
 //信息流到达EOF错误信息用于标识binlog流结束
 var (
-	errStreamEOF = errors.New("stream reached EOF") //信息流到达EOF
+	errStreamEOF  = errors.New("stream reached EOF")    //信息流到达EOF
+	errConnClosed = errors.New("slave connection closed") //连接已被关闭
 )
 
 //Error gobinlog的错误
